@@ -89,6 +89,11 @@ impl Config {
 }
 
 pub fn generate(wit: &str, cfg: &Config) -> Result<String, String> {
+    generate_async(wit, cfg, &[])
+}
+
+/// As [`generate`], with `--async` directives (e.g. `-import:t:t/i#h0`, `-all`).
+pub fn generate_async(wit: &str, cfg: &Config, directives: &[String]) -> Result<String, String> {
     let mut resolve = Resolve::default();
     let pkg = resolve.push_str("chunk.wit", wit).map_err(|e| format!("WIT does not parse: {e:#}"))?;
     let world = resolve.select_world(&[pkg], Some("w")).map_err(|e| format!("select_world: {e:#}"))?;
@@ -107,6 +112,9 @@ pub fn generate(wit: &str, cfg: &Config) -> Result<String, String> {
     }
     if cfg.hashmap {
         opts.map_type = Some("std::collections::HashMap".to_string());
+    }
+    for d in directives {
+        opts.async_.push(d);
     }
     let r = vcommon::catch(move || {
         let mut files = Files::default();
